@@ -29,7 +29,9 @@ CLAIMED = {
          'allow_pentapy, padding; pentapy installed or not; every N) the re-used PenalizedSystem equals a fresh one. Correspondence: '
          'translated tables vs the real functions, diff_penalty_diagonals/diff_penalty_matrix/difference_matrix vs the model for d=0..6 '
          'over all branches and paddings, random reconfiguration histories of real PenalizedSystem/PSpline objects vs the model state '
-         'machine and vs fresh objects.'),
+         'machine and vs fresh objects; the penalties of the 2-D systems (Kronecker, 2-D P-spline, eigendecomposition mode), built as the '
+         'methods build them and over (lam, order) histories, against the model\'s exact D\'D: lam_r kron(D\'D, I) + lam_c kron(I, D\'D) '
+         'bit-exactly, retained eigenpairs by orthonormality / residual / smallest eigenvalues, reused == fresh.'),
    note=('Trusted: Lean kernel; axioms propext, Classical.choice, Quot.sound; translate.py (AST fragment -> table; cross-checked against '
          'the real functions each run); the correspondence harness. SciPy sparse path for d>3 or N<2d+1 is tied by the correspondence '
          'only (exact integer comparison on explored sizes), not by a theorem.'),
@@ -84,7 +86,8 @@ CLAIMED = {
          'the explicit products for every weight vector; knot-vector length and basis-midpoint count. Correspondence: real SplineBasis '
          '(compiled path) vs the exact model on the real knots vs scipy BSpline.design_matrix vs the slow fallback path, x on knots/ends/'
          'repeated/clustered/unsorted, num_knots 2..200, degree 0..6; captured B\'WB/B\'Wy of PSpline.solve_pspline (compiled and sparse '
-         'fallback) vs explicit products, zero and gap weights.'),
+         'fallback) vs explicit products, zero and gap weights; histories of (num_knots, degree) requests on one 1-D / 2-D fitter object: '
+         'the basis handed to the method is the B-spline basis of the request and the method result equals a fresh fitter\'s.'),
    note=('Trusted: Lean kernel; axioms propext, Classical.choice, Quot.sound; harness; float de Boor vs exact within 64*eps*(degree+1); '
          'scipy BSpline as third witness.'),
    technique='Lean 4 proof (partition of unity, Cox-de Boor equality, interval search, exact normal equations) + three-way correspondence',
@@ -190,7 +193,7 @@ CLAIMED = {
          'imodpoly, penalized_poly x 5 cost functions, quant_reg, goldindec, dietrich, loess coefficients, 2-D versions with max_cross, '
          'fitter objects reused across orders) the returned coefficients are evaluated EXACTLY in rationals on the user\'s x (and z) and '
          'must reproduce the returned baseline within a rounding budget derived from sum|c_j||x|^j; for poly the exact weighted normal-'
-         'equation residual must vanish relative to its scale; domains with offsets up to 1e12, scales 1e-9..1e5, negative, unsorted. Also: loess coefficients under both memory strategies, with skipped points and several robust iterations.'),
+         'equation residual must vanish relative to its scale; domains with offsets up to 1e12, scales 1e-9..1e5, negative, unsorted. Also: loess coefficients under both memory strategies, with skipped points and several robust iterations; and every other keyword of every 1-D / 2-D polynomial method moved, one at a time, to its alternative values (iteration limits 0/1/5, tolerances, thresholds, cost functions) under the same exact coefficient-evaluation check.'),
    note=('Trusted: Lean kernel; axioms propext, Classical.choice, Quot.sound; harness. np.linalg.pinv/lstsq are black boxes certified only '
          'on explored inputs; the mapped variable is taken as numpy computes it.'),
    technique='Lean 4 proof of the coefficient transform and of normal-equations => unique minimiser + exact-rational certificates of real outputs',
